@@ -95,6 +95,13 @@ func (f *fn) stmt(s ast.Stmt, k cont) (string, error) {
 		return f.rangeStmt(x, k)
 	case *ast.ForStmt:
 		return f.forStmt(x, k)
+	case *ast.SwitchStmt:
+		return f.switchStmt(x, k)
+	case *ast.BranchStmt:
+		if x.Tok == token.CONTINUE && x.Label == nil && len(f.conts) > 0 {
+			return f.conts[len(f.conts)-1]()
+		}
+		return "", f.errf(x, "%s is not understood here", x.Tok)
 	}
 	return "", f.errf(s, "statement %T is not understood", s)
 }
@@ -115,6 +122,9 @@ func (f *fn) isSetupType(t types.Type) bool {
 
 func (f *fn) declStmt(x *ast.DeclStmt, k cont) (string, error) {
 	gd, ok := x.Decl.(*ast.GenDecl)
+	if ok && gd.Tok == token.CONST {
+		return k() // local constants are folded by the type checker wherever they are used
+	}
 	if !ok || gd.Tok != token.VAR {
 		return "", f.errf(x, "declaration is not understood")
 	}
@@ -160,6 +170,9 @@ func (f *fn) declStmt(x *ast.DeclStmt, k cont) (string, error) {
 				}
 			}
 			b := f.declare(o, t)
+			if i < len(vs.Values) {
+				f.noteAlias(id, vs.Values[i])
+			}
 			if !b.tok {
 				code += "let " + b.name + " := " + term + " in\n"
 			}
@@ -270,6 +283,9 @@ func (f *fn) assignLval(lhs ast.Expr, term string, k cont) (string, error) {
 		}
 		return "let " + b.name + " := " + term + " in\n" + rest, nil
 	case *ast.SelectorExpr:
+		if err := f.checkWriteThrough(x); err != nil {
+			return "", err
+		}
 		if b, _, p, ok := f.extPath(x); ok {
 			pb := b.ext[p]
 			if pb == nil {
@@ -339,6 +355,9 @@ func (f *fn) assignLval(lhs ast.Expr, term string, k cont) (string, error) {
 		parts[i] = term
 		return f.assignLval(x.X, tuple(parts), k)
 	case *ast.IndexExpr:
+		if err := f.checkWriteThrough(x); err != nil {
+			return "", err
+		}
 		if se, ok := ast.Unparen(x.X).(*ast.SelectorExpr); ok {
 			if l, lf, ok := f.layoutField(se); ok {
 				if lf == nil || !lf.array {
@@ -368,6 +387,19 @@ func (f *fn) assignLval(lhs ast.Expr, term string, k cont) (string, error) {
 			return "", err
 		}
 		switch a.t.k {
+		case kTuple:
+			// element of a small array (a tuple), index known to the translator
+			kk, ok := f.constIndex(x.Index)
+			if len(a.t.names) != 0 || len(a.pre) != 0 || !ok || kk < 0 || kk >= len(a.t.elems) {
+				return "", f.errf(x, "assignment to an array element needs an index known at translation time, in range")
+			}
+			n := len(a.t.elems)
+			parts := make([]string, n)
+			for j := range parts {
+				parts[j] = proj(a.term, j, n)
+			}
+			parts[kk] = term
+			return f.assignLval(x.X, tuple(parts), k)
 		case kList:
 			tmp := f.temp()
 			pre := append(append([]pbind{}, a.pre...), i.pre...)
@@ -589,6 +621,8 @@ func (f *fn) assignStmt(x *ast.AssignStmt, k cont) (string, error) {
 		if err != nil {
 			return "", err
 		}
+		f.noteAlias(x.Lhs[0], x.Rhs[0])
+		f.noteNonNeg(x.Lhs[0], x.Rhs[0])
 		var body string
 		if fin != nil {
 			body, err = f.assignLval(x.Lhs[0], v.term, k)
@@ -626,6 +660,7 @@ func (f *fn) assignStmt(x *ast.AssignStmt, k cont) (string, error) {
 				if err != nil {
 					return "", err
 				}
+				f.noteAlias(x.Lhs[i], x.Rhs[i])
 				rest, err := store(i + 1)
 				if err != nil {
 					return "", err
@@ -636,6 +671,7 @@ func (f *fn) assignStmt(x *ast.AssignStmt, k cont) (string, error) {
 				return "let " + name + " := " + tmps[i] + " in\n" + rest, nil
 			}
 		}
+		f.noteAlias(x.Lhs[i], x.Rhs[i])
 		return f.assignLval(x.Lhs[i], tmps[i], func() (string, error) { return store(i + 1) })
 	}
 	body, err := store(0)
@@ -694,6 +730,9 @@ func (f *fn) retTerm(n ast.Node, vals []string, errTerm string) (string, error) 
 	comps := append([]string{}, vals...)
 	if f.inf.mutRecv {
 		comps = append(comps, f.env[f.inf.recv].name)
+	}
+	for _, i := range f.inf.mutPar {
+		comps = append(comps, f.env[f.inf.params[i]].name)
 	}
 	if f.inf.world {
 		comps = append(comps, "w")
@@ -803,6 +842,16 @@ func (f *fn) ifStmt(x *ast.IfStmt, k cont) (string, error) {
 		y.Init = nil
 		return f.stmt(x.Init, func() (string, error) { return f.ifStmt(&y, k) })
 	}
+	// a condition whose value is known at translation time (a test on the index of an unrolled loop)
+	if v, ok := f.constBool(x.Cond); ok {
+		if v {
+			return f.block(x.Body.List, k)
+		}
+		if x.Else != nil {
+			return f.stmt(x.Else, k)
+		}
+		return k()
+	}
 	c, err := f.expr(x.Cond)
 	if err != nil {
 		return "", err
@@ -834,7 +883,16 @@ func (f *fn) ifStmt(x *ast.IfStmt, k cont) (string, error) {
 			return "", err
 		}
 	}
-	body := "if " + c.term + " then\n" + thenS + "\nelse\n" + elseS
+	condT := c.term
+	// normal form: `if !c {A} else {B}` is `if c {B} else {A}`
+	for {
+		inner, ok := stripNegb(condT)
+		if !ok {
+			break
+		}
+		condT, thenS, elseS = inner, elseS, thenS
+	}
+	body := "if " + condT + " then\n" + thenS + "\nelse\n" + elseS
 	if strings.Contains(body, ph) {
 		r, err := restK()
 		if err != nil {
@@ -858,201 +916,6 @@ func (f *fn) loopCode(loopTerm string, fr *frame, k cont) (string, error) {
 		ret = "Return r_"
 	}
 	return "match " + loopTerm + " with\n| Return r_ => " + ret + "\n| Next " + matchPat(vars) + " =>\n" + rest + "\nend", nil
-}
-
-func (f *fn) rangeStmt(x *ast.RangeStmt, k cont) (string, error) {
-	var xs string
-	var elemT *cty
-	isChan := false
-	if id, ok := ast.Unparen(x.X).(*ast.Ident); ok {
-		if b := f.env[f.info.Uses[id]]; b != nil && b.batches != "" {
-			isChan = true
-			if len(x.Body.List) == 0 && x.Key == nil {
-				return k() // `for range c {}`: drain the channel
-			}
-			if b.drained {
-				return "", f.errf(x, "a second loop over the channel is not understood")
-			}
-			b.drained = true
-			xs = b.batches
-			ct, err := f.ctype(x, f.info.TypeOf(x.X))
-			if err != nil {
-				return "", err
-			}
-			elemT = ct.elem
-		}
-	}
-	var pre []pbind
-	if !isChan {
-		v, err := f.expr(x.X)
-		if err != nil {
-			return "", err
-		}
-		if v.t.k != kList {
-			return "", f.errf(x, "range over %s is not understood", v.t.coq())
-		}
-		xs, elemT, pre = v.term, v.t.elem, v.pre
-	}
-	if x.Tok != token.DEFINE && (x.Key != nil || x.Value != nil) {
-		return "", f.errf(x, "range with assignment to existing variables is not understood")
-	}
-	fr := f.pushFrame()
-	keyN, valN := "_", "_"
-	if isChan {
-		// the channel delivers values only: `for v := range c`
-		if x.Key != nil && !isBlank(x.Key) {
-			valN = f.declare(f.info.Defs[x.Key.(*ast.Ident)], elemT).name
-		}
-	} else {
-		if x.Key != nil && !isBlank(x.Key) {
-			keyN = f.declare(f.info.Defs[x.Key.(*ast.Ident)], &cty{k: kZ, goInt: "int"}).name
-		}
-		if x.Value != nil && !isBlank(x.Value) {
-			valN = f.declare(f.info.Defs[x.Value.(*ast.Ident)], elemT).name
-		}
-	}
-	id := f.nextPH()
-	f.loop++
-	body, err := f.block(x.Body.List, func() (string, error) { return "(Next " + statePH(id) + ")", nil })
-	f.loop--
-	f.popFrame()
-	if err != nil {
-		return "", err
-	}
-	vars := f.frameVars(fr)
-	if valN != "_" && !isChan {
-		// the value variable is a copy taken before the body runs: the ranged slice must not be rebound
-		if rid, ok := ast.Unparen(x.X).(*ast.Ident); ok {
-			for _, o := range fr.list {
-				if o == f.info.Uses[rid] {
-					return "", f.errf(x, "the ranged slice is assigned in the loop body while its elements are read")
-				}
-			}
-		}
-	}
-	body = strings.ReplaceAll(body, statePH(id), tuple(vars))
-	loopTerm := fmt.Sprintf("(range_loop (fun %s %s %s =>\n%s) 0%%Z %s %s)", keyN, valN, pattern(vars), body, xs, tuple(vars))
-	code, err := f.loopCode(loopTerm, fr, k)
-	if err != nil {
-		return "", err
-	}
-	return f.wrapPre(x, pre, code)
-}
-
-func (f *fn) forStmt(x *ast.ForStmt, k cont) (string, error) {
-	// for sc.Scan() { ... }
-	if x.Init == nil && x.Post == nil && x.Cond != nil {
-		if c, ok := ast.Unparen(x.Cond).(*ast.CallExpr); ok {
-			if fo := calleeFunc(f.info, c); fo != nil && fo.FullName() == "(*bufio.Scanner).Scan" {
-				se := ast.Unparen(c.Fun).(*ast.SelectorExpr)
-				id, ok := ast.Unparen(se.X).(*ast.Ident)
-				if !ok {
-					return "", f.errf(x, "scanner expression is not understood")
-				}
-				b, _, err := f.lookup(id)
-				if err != nil {
-					return "", err
-				}
-				if b.scanned {
-					return "", f.errf(x, "a second scan loop is not understood")
-				}
-				fr := f.pushFrame()
-				b.text = f.fresh("line")
-				ph := f.nextPH()
-				f.loop++
-				body, err := f.block(x.Body.List, func() (string, error) { return "(Next " + statePH(ph) + ")", nil })
-				f.loop--
-				f.popFrame()
-				if err != nil {
-					return "", err
-				}
-				text := b.text
-				b.text = ""
-				b.scanned = true
-				vars := f.frameVars(fr)
-				body = strings.ReplaceAll(body, statePH(ph), tuple(vars))
-				loopTerm := fmt.Sprintf("(range_loop (fun _ %s %s =>\n%s) 0%%Z (fst %s) %s)", text, pattern(vars), body, b.name, tuple(vars))
-				return f.loopCode(loopTerm, fr, k)
-			}
-		}
-	}
-	// for i := a; i < n; i += k { ... }
-	init, ok := x.Init.(*ast.AssignStmt)
-	if !ok || init.Tok != token.DEFINE || len(init.Lhs) != 1 || len(init.Rhs) != 1 {
-		return "", f.errf(x, "for loop form is not understood (init)")
-	}
-	iv := f.info.Defs[init.Lhs[0].(*ast.Ident)]
-	cond, ok := ast.Unparen(x.Cond).(*ast.BinaryExpr)
-	if !ok || cond.Op != token.LSS {
-		return "", f.errf(x, "for loop form is not understood (condition must be i < n)")
-	}
-	if cid, ok := ast.Unparen(cond.X).(*ast.Ident); !ok || f.info.Uses[cid] != iv {
-		return "", f.errf(x, "for loop form is not understood (condition must be i < n)")
-	}
-	var step string
-	switch p := x.Post.(type) {
-	case *ast.IncDecStmt:
-		if pid, ok := p.X.(*ast.Ident); !ok || f.info.Uses[pid] != iv || p.Tok != token.INC {
-			return "", f.errf(x, "for loop form is not understood (post)")
-		}
-		step = "1%Z"
-	case *ast.AssignStmt:
-		if pid, ok := p.Lhs[0].(*ast.Ident); !ok || len(p.Lhs) != 1 || f.info.Uses[pid] != iv || p.Tok != token.ADD_ASSIGN {
-			return "", f.errf(x, "for loop form is not understood (post)")
-		}
-		kk, ok := f.constIndex(p.Rhs[0])
-		if !ok || kk <= 0 {
-			return "", f.errf(x, "the step of a for loop must be a positive constant")
-		}
-		step = fmt.Sprintf("%d%%Z", kk)
-	default:
-		return "", f.errf(x, "for loop form is not understood (post)")
-	}
-	a, err := f.expr(init.Rhs[0])
-	if err != nil {
-		return "", err
-	}
-	n, err := f.expr(cond.Y)
-	if err != nil {
-		return "", err
-	}
-	if len(a.pre)+len(n.pre) != 0 || a.t.k != kZ || a.t.goInt != "int" {
-		return "", f.errf(x, "for loop bounds are not understood")
-	}
-	var boundObjs []types.Object
-	ast.Inspect(cond.Y, func(m ast.Node) bool {
-		if id, ok := m.(*ast.Ident); ok {
-			if o := f.info.Uses[id]; o != nil && f.env[o] != nil {
-				boundObjs = append(boundObjs, o)
-			}
-		}
-		return true
-	})
-	fr := f.pushFrame()
-	ib := f.declare(iv, a.t)
-	ph := f.nextPH()
-	before := f.countAssign(iv)
-	f.loop++
-	body, err := f.block(x.Body.List, func() (string, error) { return "(Next " + statePH(ph) + ")", nil })
-	f.loop--
-	f.popFrame()
-	if err != nil {
-		return "", err
-	}
-	if f.countAssign(iv) != before {
-		return "", f.errf(x, "the loop variable is assigned in the body")
-	}
-	for _, o := range boundObjs {
-		for _, m := range fr.list {
-			if m == o {
-				return "", f.errf(x, "the loop bound is changed by the body")
-			}
-		}
-	}
-	vars := f.frameVars(fr)
-	body = strings.ReplaceAll(body, statePH(ph), tuple(vars))
-	loopTerm := fmt.Sprintf("(for_upto %s %s %s (fun %s %s =>\n%s) %s)", a.term, n.term, step, ib.name, pattern(vars), body, tuple(vars))
-	return f.loopCode(loopTerm, fr, k)
 }
 
 // ---------------------------------------------------------------- the writer pattern
@@ -1082,4 +945,124 @@ func (f *fn) goStmt(x *ast.GoStmt, after []ast.Stmt) (string, error) {
 	s, err := f.block(fl.Body.List, func() (string, error) { return f.retTerm(x, nil, "None") })
 	f.goBody = false
 	return s, err
+}
+
+// stripNegb: "(negb X)" -> X for a complete, balanced term X
+func stripNegb(t string) (string, bool) {
+	if !strings.HasPrefix(t, "(negb ") || !strings.HasSuffix(t, ")") {
+		return "", false
+	}
+	inner := t[len("(negb ") : len(t)-1]
+	depth := 0
+	for _, r := range inner {
+		switch r {
+		case '(':
+			depth++
+		case ')':
+			depth--
+			if depth < 0 {
+				return "", false
+			}
+		case '"':
+			return "", false // string literals: leave alone
+		}
+	}
+	if depth != 0 {
+		return "", false
+	}
+	// X must be one term: either parenthesised as a whole (possibly followed by a scope) or an identifier
+	if strings.HasPrefix(inner, "(") {
+		d := 0
+		for i, r := range inner {
+			if r == '(' {
+				d++
+			} else if r == ')' {
+				d--
+				if d == 0 {
+					rest := inner[i+1:]
+					if rest != "" && rest != "%Z" {
+						return "", false
+					}
+					break
+				}
+			}
+		}
+		return inner, true
+	}
+	if strings.ContainsAny(inner, " ()") {
+		return "", false
+	}
+	return inner, true
+}
+
+// ---------------------------------------------------------------- switch
+
+// switchStmt: a switch without fallthrough / break is the chain of ifs over its clauses in
+// order (the default clause last); with a tag, the tests are tag == v
+func (f *fn) switchStmt(x *ast.SwitchStmt, k cont) (string, error) {
+	if x.Init != nil {
+		y := *x
+		y.Init = nil
+		return f.stmt(x.Init, func() (string, error) { return f.switchStmt(&y, k) })
+	}
+	var tag ast.Expr
+	if x.Tag != nil {
+		tag = ast.Unparen(x.Tag)
+		// the tag is evaluated once: it must be a variable, a field path or a constant
+		if _, ok := f.stableRoot(tag); !ok && !isConst(f, tag) {
+			return "", f.errf(x, "the tag of a switch must be a variable, a field or a constant")
+		}
+	}
+	var clauses []*ast.CaseClause
+	var def *ast.CaseClause
+	for _, s := range x.Body.List {
+		cc := s.(*ast.CaseClause)
+		for _, b := range cc.Body {
+			bad := false
+			ast.Inspect(b, func(n ast.Node) bool {
+				switch y := n.(type) {
+				case *ast.BranchStmt:
+					if y.Tok == token.BREAK || y.Tok == token.FALLTHROUGH || y.Tok == token.GOTO {
+						bad = true
+					}
+				case *ast.ForStmt, *ast.RangeStmt, *ast.FuncLit:
+					// a break inside a nested loop is reported where it occurs
+					return false
+				}
+				return true
+			})
+			if bad {
+				return "", f.errf(b, "break / fallthrough inside a switch is not understood")
+			}
+		}
+		if cc.List == nil {
+			def = cc
+		} else {
+			clauses = append(clauses, cc)
+		}
+	}
+	var rest ast.Stmt
+	if def != nil {
+		rest = &ast.BlockStmt{Lbrace: def.Pos(), List: def.Body, Rbrace: def.End()}
+	}
+	for i := len(clauses) - 1; i >= 0; i-- {
+		cc := clauses[i]
+		var cond ast.Expr
+		for _, e := range cc.List {
+			t := e
+			if tag != nil {
+				t = &ast.BinaryExpr{X: tag, OpPos: e.Pos(), Op: token.EQL, Y: e}
+			}
+			if cond == nil {
+				cond = t
+			} else {
+				cond = &ast.BinaryExpr{X: cond, OpPos: e.Pos(), Op: token.LOR, Y: t}
+			}
+		}
+		rest = &ast.IfStmt{If: cc.Pos(), Cond: cond, Body: &ast.BlockStmt{Lbrace: cc.Colon, List: cc.Body, Rbrace: cc.End()}, Else: rest}
+	}
+	if rest == nil {
+		return k()
+	}
+	return f.stmt(rest, k)
 }
